@@ -35,13 +35,15 @@ func Table() map[string]*Property {
 	fsTrusted := []string{
 		"external contracts (trusted): os.Create (creates/truncates), os.OpenFile (truncates iff O_TRUNC, no creation without O_CREATE), os.Stat, os.IsNotExist, os.Remove, (*os.File).Close, go/format.Node and printer.WriteTo (write their bytes at the handle's offset: content' = overwrite(content, offset, data))",
 		"overwrite axioms: appending at the end concatenates; writing at offset 0 over a content that is not longer replaces it; over a longer content leaves a tail",
-		"assumed (not verified) contracts of repository functions: newFileInfos (never returns derived.gen.go; non-nil entries), newPrinter/newQualifier/newTypesMap/Plugin.New return non-nil, load, loader.Program.Package, pkg.Generate (writes only printer and type-table state)",
+		"assumed (not verified) contracts of repository functions: newPrinter/newQualifier/newTypesMap/Plugin.New return non-nil, load (returns a program with a file set), pkg.Generate's frame (writes only printer and type-table state; its work-list clause is C01's)",
+		"trusted facts about loaded packages (loader.Program.Package / InitialPackages): non-nil package, no nil object in types.Info.Uses, no nil *ast.File; ast.Walk calls nothing but the visitor's Visit (keeps the finder's invariant, which Visit is verified to keep)",
 		"fresh allocations are distinct from every address reachable from the state at the allocation",
 		"gvc VC generator; z3 4.8.12, z3 5.1.0, cvc5 1.0",
 	}
 	add(&Property{
 		ID:     "C10",
-		Groups: []Group{{Layer: "D", Pkg: "derive", Ghost: fsGhost, Funcs: []string{"derive.pkg.Filename", "derive.pkg.Print", "derive.pkg.Delete", "derive.pkg.Add", "derive.newPackage", "derive.program.generatePackage", "derive.program.Generate"}},
+		Groups: []Group{{Layer: "D", Pkg: "derive", Ghost: fsGhost, Funcs: []string{"derive.pkg.Filename", "derive.pkg.Print", "derive.pkg.Delete", "derive.pkg.Add", "derive.newPackage", "derive.program.generatePackage", "derive.program.Generate",
+			"derive.finder.Visit", "derive.getInputTypes", "derive.newCall", "derive.newFileInfos"}},
 			{Layer: "D", Pkg: "main", Ghost: mainGhost, Funcs: []string{"main.main"}}},
 		Assumptions: []string{
 			"A-int; Go maps and slices are modelled as values (no aliasing between distinct map/slice variables)",
@@ -54,11 +56,12 @@ func Table() map[string]*Property {
 	})
 	add(&Property{
 		ID:     "C07",
-		Groups: []Group{{Layer: "D", Pkg: "derive", Ghost: fsGhost, Funcs: []string{"derive.pkg.Filename", "derive.pkg.Print", "derive.pkg.Delete", "derive.program.generatePackage", "derive.program.Generate"}}},
+		Groups: []Group{{Layer: "D", Pkg: "derive", Ghost: fsGhost, Funcs: []string{"derive.pkg.Filename", "derive.pkg.Print", "derive.pkg.Delete", "derive.program.generatePackage", "derive.program.Generate",
+			"derive.finder.Visit", "derive.getInputTypes", "derive.newCall", "derive.newFileInfos"}}},
 		Assumptions: []string{
 			"decided: the file effects (R1 Print leaves exactly the printer's bytes in derived.gen.go whatever it held before, incl. a longer or truncated remnant; R2 on every successful return the derived file was written from the last package state or removed; Print is reached only with content, Delete only without)",
 			"NOT decided by any contract within reach: that the argument types goderive reads at the call sites are independent of the old derived.gen.go - that is go/types run over user sources plus the old file (loader, AllowErrors); the stale-signature case (deriveSort(deriveKeys(m)) after m's key type changes) found by hand in the design round is therefore outside this check",
-			"newFileInfos never scanning derived.gen.go is an assumed contract here",
+			"newFileInfos never scanning or handing out derived.gen.go is verified (find.go), given isDerivedFile(p) <==> the last path element is derived.gen.go",
 		},
 		Trusted: fsTrusted,
 		Note:    "file-effect half of the property only; see assumptions",
@@ -231,10 +234,12 @@ func Table() map[string]*Property {
 	})
 	add(&Property{
 		ID:     "C09",
-		Groups: []Group{{Layer: "O", NoVC: true, Funcs: c09, Only: genLevel}},
+		Groups: []Group{{Layer: "O", NoVC: true, Funcs: c09, Only: genLevel},
+			// the driver's own run-time safety (find.go): newCall's "unreachable" panic is unreachable, no nil dereference, no index out of range
+			{Layer: "D", Pkg: "derive", Ghost: fsGhost, Funcs: []string{"derive.finder.Visit", "derive.getInputTypes", "derive.newCall", "derive.newFileInfos"}}},
 		Assumptions: []string{
 			"PARTIAL. Decided: on every path of every plugin's Add (33 plugins, argument lists of 0..3 types of every kind, incl. tuple types) and of the generator functions listed, the generator code does not panic (index, type assertion, nil, Tuple.At), an error created on the path reaches the function's result (G2), callee preconditions hold (G1), indentation is balanced (G3), and on every non-error path the emitted text parses (G4), keeps its operand holes intact and type-checks under the prelude synthesised from the path condition",
-			"NOT decided here: termination / hangs; the content of the messages; derive/find.go, derive/load.go and main.go (go/packages, flag handling); pkg.Generate's 'Generator Error' wrapping (Layer D covers generate.go's file effects under C07/C10 only); Generate of clone, deepcopy, gostring, do, dup, pipeline, curry, flip, uncurry, toerror (their inner generator functions are under contract where listed)",
+			"NOT decided here: termination / hangs; the content of the messages; derive/load.go and flag handling in main.go (go/packages); of derive/find.go only newFileInfos, finder.Visit, newCall and getInputTypes are under contract (no panic, given that go/types stores no nil object in Info.Uses and the loader no nil file); pkg.Generate's 'Generator Error' wrapping (Layer D covers generate.go's file effects under C07/C10 only); Generate of clone, deepcopy, gostring, do, dup, pipeline, curry, flip, uncurry, toerror (their inner generator functions are under contract where listed)",
 			"that Generate is only called with type lists its Add accepted or another plugin requested through GetFuncName is an assumption",
 			"A-cfg, A-param; arities enumerated up to 3",
 		},
